@@ -13,7 +13,7 @@
 //! * [`SimHashState`] (only with `--cfg cel_verif_hash`) replaces `RandomState` as the
 //!   hasher of `Value::Map`, so map iteration order is a function of a seed the
 //!   harness sets instead of per-process OS randomness.
-use std::sync::atomic::{AtomicU64, AtomicUsize, Ordering};
+use std::sync::atomic::{AtomicPtr, AtomicU64, Ordering};
 
 /// Before every AST node (`Value::resolve`). `aux` = node kind.
 pub const SITE_RESOLVE: u32 = 0;
@@ -42,18 +42,24 @@ pub const KIND_OTHER: u64 = 7;
 pub type SchedHook = fn(site: u32, aux: u64);
 pub type BuggifyHook = fn(site: u32) -> bool;
 
-static SCHED_HOOK: AtomicUsize = AtomicUsize::new(0);
-static BUGGIFY_HOOK: AtomicUsize = AtomicUsize::new(0);
+static SCHED_HOOK: AtomicPtr<()> = AtomicPtr::new(std::ptr::null_mut());
+static BUGGIFY_HOOK: AtomicPtr<()> = AtomicPtr::new(std::ptr::null_mut());
 static HASH_SEED: AtomicU64 = AtomicU64::new(0);
 
 /// Installs (or removes) the process-wide scheduling hook.
 pub fn set_sched_hook(hook: Option<SchedHook>) {
-    SCHED_HOOK.store(hook.map(|f| f as usize).unwrap_or(0), Ordering::SeqCst);
+    SCHED_HOOK.store(
+        hook.map(|f| f as *const () as *mut ()).unwrap_or(std::ptr::null_mut()),
+        Ordering::SeqCst,
+    );
 }
 
 /// Installs (or removes) the process-wide buggify hook.
 pub fn set_buggify_hook(hook: Option<BuggifyHook>) {
-    BUGGIFY_HOOK.store(hook.map(|f| f as usize).unwrap_or(0), Ordering::SeqCst);
+    BUGGIFY_HOOK.store(
+        hook.map(|f| f as *const () as *mut ()).unwrap_or(std::ptr::null_mut()),
+        Ordering::SeqCst,
+    );
 }
 
 /// Sets the seed used by every `SimHashState` created from now on.
@@ -68,9 +74,9 @@ pub fn hash_seed() -> u64 {
 #[inline]
 pub(crate) fn point(site: u32, aux: u64) {
     let raw = SCHED_HOOK.load(Ordering::Relaxed);
-    if raw != 0 {
-        // SAFETY: the only non-zero values ever stored come from a `SchedHook` in `set_sched_hook`.
-        let hook: SchedHook = unsafe { std::mem::transmute::<usize, SchedHook>(raw) };
+    if !raw.is_null() {
+        // SAFETY: the only non-null values ever stored come from a `SchedHook` in `set_sched_hook`.
+        let hook: SchedHook = unsafe { std::mem::transmute::<*mut (), SchedHook>(raw) };
         hook(site, aux);
     }
 }
@@ -78,9 +84,9 @@ pub(crate) fn point(site: u32, aux: u64) {
 #[inline]
 pub(crate) fn buggify(site: u32) -> bool {
     let raw = BUGGIFY_HOOK.load(Ordering::Relaxed);
-    if raw != 0 {
+    if !raw.is_null() {
         // SAFETY: as in `point`.
-        let hook: BuggifyHook = unsafe { std::mem::transmute::<usize, BuggifyHook>(raw) };
+        let hook: BuggifyHook = unsafe { std::mem::transmute::<*mut (), BuggifyHook>(raw) };
         hook(site)
     } else {
         false
